@@ -25,7 +25,9 @@ FUNCTIONS = ["dyadic_pyramid.fill_scales_for_dyadic_pyramid (incl. nested downsc
 STUBS = ["math.log2 / math.ceil on size/target quotients -> their defining inequalities on exact integers: ceil(log2(a/t)) = k "
          "with t*2^(k-1) < a <= t*2^k (float rounding of log2 excluded); k is case split",
          "np.ndindex -> empty (only the admission checks of compute_dyadic_downscaling run); model file system for the JSON round trip"]
-ASSUMPTIONS = ["resolutions are enumerated (fixed list + VERIF_SEED-drawn), sizes are symbolic"]
+ASSUMPTIONS = ["harness structure: resolutions are enumerated (fixed list + VERIF_SEED-drawn), sizes are symbolic",
+               "harness keys: the base resolution is a symbolic exact real per decade, ratios between axes enumerated powers of two; "
+               "products with the unit factors are exact (the doubles 1e-3, 1e-6, ... are used with their exact binary values)"]
 EXPLANATION = ("Volume sizes are symbolic integers (1..10^9 per axis); the real generator runs for each enumerated resolution "
                "triple / target chunk size / max-scales; the number of levels is resolved by solver-driven case split on the "
                "defining inequalities of ceil(log2(size/target)); per path the solver proves the size formula of every level and "
@@ -35,6 +37,7 @@ BOUNDS = {"quick": "one axis size symbolic 1..10^9 (each axis in turn), the two 
                    "sizes {1,2,16,64} x max_scales {None,2}",
           "thorough": "60 resolution triples x target chunk sizes {1,2,4,8,16,32,64,128,256} x max_scales {None,1,2,5}"}
 OUTSIDE = ["float rounding inside math.log2 at ratios within 2^-50 of a rounding boundary and inside length*factor",
+           "resolutions below 1 pm (no length unit exists: the generator raises NotImplementedError by design)",
            "symbolic (non-enumerated) resolutions"]
 
 RES = [(1.0, 1.0, 1.0), (20000.0, 20000.0, 20000.0), (1.0, 1.0, 2.0), (2.0, 1.0, 1.0), (1.0, 4.0, 1.0), (1.0, 2.0, 4.0), (4.0, 1.0, 2.0),
@@ -64,6 +67,14 @@ def configs(tier, seed):
                     n += 1
                     out.append(dict(harness="structure", res=list(r), tcs=t, max_scales=ms, sym_axis=(n + v) % 3,
                                     others=list(oth[(n * 7 + v) % len(oth)]), cost=2, wall=900, max_paths=20000))
+    # symbolic base resolution: keys and unit choice for every resolution in a decade, power-of-two ratios between axes
+    decades = [(10.0 ** k, 10.0 ** (k + 1)) for k in range(-3, 9)]     # from 1 pm (the finest unit) to 1 m
+    ratios = [(1, 1, 1), (1, 2, 4), (4, 1, 1), (1, 1, 2), (8, 1, 2)]
+    for i, (lo, hi) in enumerate(decades):
+        for j, ra in enumerate(ratios):
+            if tier == "quick" and (i + j) % 2:
+                continue
+            out.append(dict(harness="keys", lo=lo, hi=hi, ratio=list(ra), cost=3, wall=900, timeout_ms=60000))
     out.append(dict(harness="params", cost=1))
     out.append(dict(harness="json", cost=1))
     return out
@@ -218,6 +229,59 @@ def H_structure(ctx, cfg):
     ctx.ok("all-scale-transitions-admitted") if n > 1 else ctx.ok("single-scale")
 
 
+def H_keys(ctx, cfg):
+    """Scale keys for a symbolic base resolution r in [lo, hi) (exact real) with power-of-two ratios between the axes:
+    the keys of all levels are pairwise distinct and each key shows the level's smallest resolution rounded to the
+    chosen unit."""
+    from ..sarray import SRl
+    from ..sstr import SDecimal, SStr, parse, sym_format
+    W = V.World()
+    r = z3.Real("r")
+    from fractions import Fraction
+    ctx.assume(z3.And(r >= z3.RealVal(str(Fraction(cfg["lo"]))), r < z3.RealVal(str(Fraction(cfg["hi"])))))
+    ctx.input("r", r)
+    ratio = cfg["ratio"]
+    res = [SRl(r * a) for a in ratio]
+
+    def log2(x):
+        if isinstance(x, SRl):
+            for c in sorted({Fraction(a, b) for a in ratio for b in ratio}):
+                if ctx.decide(x.r == z3.RealVal(str(c))):
+                    return real_math.log2(c)
+            raise OutsideModel("resolution ratio not in the enumerated set")
+        return real_math.log2(x)
+    m = types.SimpleNamespace(log2=log2, ceil=real_math.ceil, floor=real_math.floor)
+    load.patch("utils", format=sym_format)
+    dp = load.patch("dyadic_pyramid", math=m, np=W.npx, tqdm=V.NoTqdm)
+    info = dict(type="image", data_type="uint8", num_channels=1, scales=[dict(
+        size=[4096, 4096, 4096], resolution=res, voxel_offset=[0, 0, 0], encoding="raw")])
+    try:
+        dp.fill_scales_for_dyadic_pyramid(info, target_chunk_size=64)
+    except NotImplementedError:
+        ctx.fail("no-unit-found-for-the-key", detail=f"decade [{cfg['lo']}, {cfg['hi']})")
+        return
+    scales = info["scales"]
+    keys = [parse(sc["key"]) for sc in scales]
+    if not all(len(k) == 2 and isinstance(k[0], SDecimal) and isinstance(k[1], str) for k in keys):
+        ctx.fail("unexpected-key-structure", detail=str(keys[:2]))
+        return
+    units = {k[1] for k in keys}
+    ctx.sample(dict(decade=[cfg["lo"], cfg["hi"]], ratio=ratio, levels=len(scales), unit=sorted(units)))
+    ctx.prove(len(units) == 1, "one-unit-for-all-keys", detail=str(units))
+    D = [k[0].D for k in keys]
+    ctx.prove(z3.And([D[i] != D[j] for i in range(len(D)) for j in range(i + 1, len(D))]), "scale-keys-pairwise-distinct")
+    utils = load.mod("utils")
+    unit = next(iter(units))
+    f = Fraction(utils.LENGTH_UNITS[unit])
+    delays = [builtins.int(round(real_math.log2(a / min(ratio)))) for a in ratio]
+    conds = []
+    for l, d in enumerate(D):
+        mn = min(a * (1 << max(0, l - dl)) for a, dl in zip(ratio, delays))
+        x = r * z3.RealVal(str(Fraction(mn) * f))
+        conds.append(z3.And(2 * (z3.ToReal(d) - x) <= 1, 2 * (x - z3.ToReal(d)) <= 1, d >= 1))
+    ctx.prove(z3.And(conds), "key-is-the-smallest-resolution-of-the-level-rounded-to-the-unit-and-non-zero")
+
+
 def H_params(ctx, cfg):
     """set_info_params x get_encoder: every (type, encoding, data_type) combination the generator emits is accepted."""
     gsi = load.mod("scripts.generate_scales_info")
@@ -284,6 +348,23 @@ def H_json(ctx, cfg):
 
 def replay(cfg, cex):
     dp = load.mod("dyadic_pyramid")
+    if cfg["harness"] == "keys":
+        from fractions import Fraction
+        rv = cex["inputs"]["r"]
+        rv = float(Fraction(rv)) if "?" not in str(rv) else float(str(rv).rstrip("?"))
+        res = [rv * a for a in cfg["ratio"]]
+        info = dict(type="image", data_type="uint8", num_channels=1, scales=[dict(
+            size=[4096, 4096, 4096], resolution=res, voxel_offset=[0, 0, 0], encoding="raw")])
+        try:
+            dp.fill_scales_for_dyadic_pyramid(info, target_chunk_size=64)
+        except NotImplementedError as e:
+            return True, f"no unit found for resolution {res}"
+        keys = [s_["key"] for s_ in info["scales"]]
+        if len(set(keys)) != len(keys):
+            return True, f"duplicate keys {keys} for resolution {res}"
+        if any(k.lstrip("0") == k[-2:] or k[:-2] in ("", "0") for k in keys):
+            return True, f"zero key in {keys} for resolution {res}"
+        return False, f"keys {keys} distinct"
     if cfg["harness"] != "structure":
         return bool(cex["inputs"].get("bad")), str(cex["inputs"].get("bad"))[:300]
     size = cex["inputs"]["size"]
